@@ -235,6 +235,7 @@ fn mutations(d: &[u8], other_sess: u16) -> Vec<(String, Vec<u8>)> {
 fn sweep(cfg: &Cfg, acc: &mut Acc) -> Result<(), String> {
     let mut w = build(cfg);
     w.exec.run()?;
+    let violations_at_start = acc.report.violations.len();
     let mut steps = 0;
     let mut multicast_done = 0usize;
     loop {
@@ -285,6 +286,17 @@ fn sweep(cfg: &Cfg, acc: &mut Acc) -> Result<(), String> {
             m[16..18].copy_from_slice(&OTHER_GROUP_ID.to_le_bytes());
             muts.push(("group-other-group-id".into(), m));
         }
+        if !cfg.group && d.bytes[0] & 0x04 == 0 {
+            // a message encrypted under this session's key "as another source node": the nonce built from
+            // another node id, the header naming that node, or both (fresh counter, opens an exchange)
+            let (key, sess, genuine) = if d.to == 1 { (nodes::key(0x11), 2u16, NODE_A) } else { (nodes::key(0x22), 1u16, NODE_B) };
+            let ctr = u32::from_le_bytes([d.bytes[4], d.bytes[5], d.bytes[6], d.bytes[7]]);
+            let other = genuine ^ 0x0101;
+            for (what, nonce, hdr) in [("other-source-node:nonce-only", other, None), ("other-source-node:header-and-nonce", other, Some(other)), ("other-source-node:header-only", genuine, Some(other))] {
+                let bytes = crate::common::wire::craft_secure_src(&key, sess, ctr, nonce, hdr, 0x05, 7, 0x4242, PROTO, None, &[1, 2, 3]);
+                muts.push((what.into(), bytes));
+            }
+        }
         // the same datagram offered to the opposite direction (to its own sender)
         let reverse_target = d.from;
         for (what, bytes) in muts.drain(..) {
@@ -298,6 +310,24 @@ fn sweep(cfg: &Cfg, acc: &mut Acc) -> Result<(), String> {
         vclock::advance_by_ms(1);
         w.net.deliver(0, false);
         w.exec.run()?;
+    }
+    // control for the crafted "other source node" messages: the same crafting with the genuine
+    // identity must be accepted (otherwise those mutations are rejected for the wrong reason)
+    if !cfg.group {
+        let ctr = w.a.get().with_state(|st| st.verif_sessions().iter().find(|x| x.get_local_sess_id() == 1).map(|x| x.verif_flags().2)).unwrap_or(0);
+        let bytes = crate::common::wire::craft_secure_src(&nodes::key(0x11), 2, ctr.wrapping_add(100), NODE_A, None, 0x05, 7, 0x4343, PROTO, None, &[1, 2, 3]);
+        let before = w.log_b.borrow().len();
+        w.net.inject(0, 1, bytes);
+        let k = w.net.inflight_len() - 1;
+        w.net.deliver(k, false);
+        w.exec.run()?;
+        // (after a violation the node is in a state the property excludes: the control proves nothing then)
+        if w.log_b.borrow().len() != before + 1 && acc.report.violations.len() == violations_at_start {
+            return Err(format!("harness: a message crafted with the genuine identity was not accepted (cfg {:?})", cfg));
+        }
+        if w.log_b.borrow().len() == before + 1 {
+            w.log_b.borrow_mut().pop();
+        }
     }
     // what one node encodes the peer decodes to the identical fields and payload
     let log = w.log_b.borrow();
